@@ -269,7 +269,7 @@ QuickSeeds(kind) == {Seed(kind, ".", RichFiles, {}, FALSE), Seed(kind, ".", Rich
 SeedSet(m) ==
   CASE m = "quick"    -> QuickSeeds("inc") \cup {Seed("inc", "p", RichFiles, {<<nD>>}, FALSE)}
                          \cup (QuickSeeds("exc") \ {Seed("exc", "p", RichFiles, {}, TRUE)}) \cup SmallSeeds(2, {FALSE})
-    [] m = "thorough" -> RichSeeds("inc", {{}, {<<nS>>}, SD, {<<nD>>}}) \cup RichSeeds("exc", {{}, SD}) \cup SmallSeeds(3, BOOLEAN)
+    [] m = "thorough" -> RichSeeds("inc", {{}, {<<nS>>}, SD, {<<nD>>}}) \cup RichSeeds("exc", {{}, SD}) \cup SmallSeeds(4, BOOLEAN)
     [] m = "sanity"   -> RichSeeds("inc", {{}, {<<nS>>}})
 PatSet(m, kind) ==
   CASE m = "quick" /\ kind = "inc"      -> IncPats(PatSeqs(SegFull, {1, 2}) \cup PatSeqs(SegCore, {3}))
